@@ -86,8 +86,9 @@ Section WithFacts.
     | p :: ps' =>
         do r <- coerce_one x ns p field v nullable errname;
         let '(ns', v') := r in
-        (* if errors.COERCION_FAILED in self.document_error_tree.fetch_errors_from(path + (field,)): break *)
-        if errlist_has_code (errcode F "COERCION_FAILED")
+        (* if error in self.document_error_tree.fetch_errors_from(path + (field,)): break *)
+        (* `error` is the definition the chain files on failure: COERCION_FAILED for coercers, RENAMING_FAILED for rename handlers *)
+        if errlist_has_code (errcode F errname)
              (fetch_errors (build M KDoc (n_errs ns')) (x_dp x ++ [field]))
         then Ok (ns', v')
         else coerce_chain x ns' ps' field v' nullable errname
